@@ -8,22 +8,22 @@
 EXTENDS PartitionAlg, TLAPS
 
 LEMMA InitInv == Init => Inv
-  BY DEF Assumptions, params, Init, Inv, TypeOK, CursorInv, LoopInv, Post, StartOK, Running, Idx
+  BY DEF Assumptions, params, Init, Inv, TypeOK, InRange, NoPanicInRange, OorInv, CursorInv, LoopInv, Post, StartOK, Running, Idx
 
 LEMMA StartInv == Inv /\ Start => Inv'
-  BY DEF Assumptions, params, Inv, Start, TypeOK, CursorInv, LoopInv, Post, StartOK, Running, Idx, Swap
+  BY DEF Assumptions, params, Inv, Start, TypeOK, InRange, NoPanicInRange, OorInv, CursorInv, LoopInv, Post, StartOK, Running, Idx, Swap
 
 LEMMA StepIInv == Inv /\ StepI => Inv'
-  BY DEF Assumptions, params, Inv, StepI, TypeOK, CursorInv, LoopInv, Post, StartOK, Running, Idx
+  BY DEF Assumptions, params, Inv, StepI, TypeOK, InRange, NoPanicInRange, OorInv, CursorInv, LoopInv, Post, StartOK, Running, Idx
 
 LEMMA StepJInv == Inv /\ StepJ => Inv'
-  BY DEF Assumptions, params, Inv, StepJ, TypeOK, CursorInv, LoopInv, Post, StartOK, Running, Idx
+  BY DEF Assumptions, params, Inv, StepJ, TypeOK, InRange, NoPanicInRange, OorInv, CursorInv, LoopInv, Post, StartOK, Running, Idx
 
 LEMMA CmpInv == Inv /\ Cmp => Inv'
-  BY DEF Assumptions, params, Inv, Cmp, TypeOK, CursorInv, LoopInv, Post, StartOK, Running, Idx, Swap
+  BY DEF Assumptions, params, Inv, Cmp, TypeOK, InRange, NoPanicInRange, OorInv, CursorInv, LoopInv, Post, StartOK, Running, Idx, Swap
 
 LEMMA StutterInv == Inv /\ UNCHANGED vars => Inv'
-  BY DEF Assumptions, params, Inv, vars, TypeOK, CursorInv, LoopInv, Post, StartOK, Running, Idx
+  BY DEF Assumptions, params, Inv, vars, TypeOK, InRange, NoPanicInRange, OorInv, CursorInv, LoopInv, Post, StartOK, Running, Idx
 
 THEOREM Safety == Spec => []Inv
   <1>1. Inv /\ [Next]_vars => Inv'
@@ -31,7 +31,7 @@ THEOREM Safety == Spec => []Inv
   <1>. QED  BY InitInv, <1>1, PTL DEF Spec
 
 (* C15 in words: no panic, and the arrangement at return *)
-THEOREM NeverPanics == Spec => [](pc # "panic")
-  <1>1. Inv => pc # "panic"  BY DEF Inv, TypeOK
+THEOREM NeverPanics == Spec => [](P0 < Len0 => pc # "panic")
+  <1>1. Inv => (P0 < Len0 => pc # "panic")  BY DEF Inv, NoPanicInRange, InRange
   <1>. QED  BY Safety, <1>1, PTL
 =============================================================================
